@@ -222,11 +222,7 @@ func (x *vE2Run) apply(o vE2Op) string {
 		return x.takeReplies()
 	case 'R':
 		x.leader = o.arg == 1
-		if o.arg == 1 {
-			v.db.status = STATE_LEADER
-		} else {
-			v.db.status = STATE_FOLLOWER
-		}
+		v.db.status = vRoleOf(o.arg)
 		return "-"
 	case 'S':
 		return x.snapshot()
@@ -434,7 +430,7 @@ func (x *vE2Run) ticks(k int) {
 }
 
 func (x *vE2Run) setLeader(b bool) {
-	a := 0
+	a := vNonLeaderArg(x.r)
 	if b {
 		a = 1
 	}
